@@ -20,6 +20,16 @@ type BasicType interface {
 		~float32 | ~float64
 }
 
+// checkPrefix reports an error when n cannot be represented in the length
+// prefix type T, so that an over-long value is refused instead of being written
+// behind a wrapped-around prefix.
+func checkPrefix[T constraints.Unsigned](n int) error {
+	if n < 0 || int(T(n)) != n {
+		return errors.New("length does not fit its prefix type")
+	}
+	return nil
+}
+
 func WriteBasicType[T BasicType](buf *bytes.Buffer, v T) error {
 	return binary.Write(buf, binary.BigEndian, &v)
 }
@@ -42,6 +52,9 @@ func ReadBasicTypeLE[T BasicType](buf *bytes.Buffer) (T, error) {
 }
 
 func WriteBasicTypeList[T constraints.Unsigned, K BasicType](buf *bytes.Buffer, values []K) error {
+	if err := checkPrefix[T](len(values)); err != nil {
+		return err
+	}
 	if err := binary.Write(buf, binary.BigEndian, T(len(values))); err != nil {
 		return err
 	}
@@ -54,6 +67,9 @@ func WriteBasicTypeList[T constraints.Unsigned, K BasicType](buf *bytes.Buffer, 
 }
 
 func WriteBasicTypeListLE[T constraints.Unsigned, K BasicType](buf *bytes.Buffer, values []K) error {
+	if err := checkPrefix[T](len(values)); err != nil {
+		return err
+	}
 	if err := binary.Write(buf, binary.LittleEndian, T(len(values))); err != nil {
 		return err
 	}
@@ -109,6 +125,9 @@ func ReadBasicTypeListLE[T constraints.Unsigned, K BasicType](buf *bytes.Buffer)
 // ----------------------------
 
 func WriteString[T constraints.Unsigned](buf *bytes.Buffer, s string) error {
+	if err := checkPrefix[T](len(s)); err != nil {
+		return err
+	}
 	if err := binary.Write(buf, binary.BigEndian, T(len(s))); err != nil {
 		return err
 	}
@@ -119,6 +138,9 @@ func WriteString[T constraints.Unsigned](buf *bytes.Buffer, s string) error {
 }
 
 func WriteStringLE[T constraints.Unsigned](buf *bytes.Buffer, s string) error {
+	if err := checkPrefix[T](len(s)); err != nil {
+		return err
+	}
 	if err := binary.Write(buf, binary.LittleEndian, T(len(s))); err != nil {
 		return err
 	}
@@ -193,6 +215,9 @@ func WriteFixedStringList[T constraints.Unsigned](buf *bytes.Buffer, values []st
 }
 
 func WriteFixedStringListWithPadding[T constraints.Unsigned](buf *bytes.Buffer, values []string, fixedLen int, padChar rune, padLeft bool) error {
+	if err := checkPrefix[T](len(values)); err != nil {
+		return err
+	}
 	if err := binary.Write(buf, binary.BigEndian, T(len(values))); err != nil {
 		return err
 	}
@@ -211,6 +236,9 @@ func WriteFixedStringListLE[T constraints.Unsigned](buf *bytes.Buffer, values []
 	return WriteFixedStringListWithPaddingLE[T](buf, values, fixedLen, ' ', false)
 }
 func WriteFixedStringListWithPaddingLE[T constraints.Unsigned](buf *bytes.Buffer, values []string, fixedLen int, padChar rune, padLeft bool) error {
+	if err := checkPrefix[T](len(values)); err != nil {
+		return err
+	}
 	if err := binary.Write(buf, binary.LittleEndian, T(len(values))); err != nil {
 		return err
 	}
@@ -287,12 +315,18 @@ func ReadFixedStringListTrimPaddingLE[T constraints.Unsigned](buf *bytes.Buffer,
 // K: type used for each string's length prefix (e.g., uint8, uint16, uint32)
 func WriteStringListLE[T constraints.Unsigned, K constraints.Unsigned](buf *bytes.Buffer, values []string) error {
 	// Write the list length prefix
+	if err := checkPrefix[T](len(values)); err != nil {
+		return err
+	}
 	if err := binary.Write(buf, binary.LittleEndian, T(len(values))); err != nil {
 		return err
 	}
 
 	// Write each string with its own length prefix
 	for _, s := range values {
+		if err := checkPrefix[K](len(s)); err != nil {
+			return err
+		}
 		if err := binary.Write(buf, binary.LittleEndian, K(len(s))); err != nil {
 			return err
 		}
@@ -303,12 +337,18 @@ func WriteStringListLE[T constraints.Unsigned, K constraints.Unsigned](buf *byte
 
 func WriteStringList[T constraints.Unsigned, K constraints.Unsigned](buf *bytes.Buffer, values []string) error {
 	// Write the list length prefix
+	if err := checkPrefix[T](len(values)); err != nil {
+		return err
+	}
 	if err := binary.Write(buf, binary.BigEndian, T(len(values))); err != nil {
 		return err
 	}
 
 	// Write each string with its own length prefix
 	for _, s := range values {
+		if err := checkPrefix[K](len(s)); err != nil {
+			return err
+		}
 		if err := binary.Write(buf, binary.BigEndian, K(len(s))); err != nil {
 			return err
 		}
@@ -375,6 +415,9 @@ func ReadStringList[T constraints.Unsigned, K constraints.Unsigned](buf *bytes.B
 // Object
 func WriteObjectList[T constraints.Unsigned, K BinaryCodec](buf *bytes.Buffer, values []K) error {
 	// Write the list length prefix
+	if err := checkPrefix[T](len(values)); err != nil {
+		return err
+	}
 	if err := binary.Write(buf, binary.BigEndian, T(len(values))); err != nil {
 		return err
 	}
@@ -409,6 +452,9 @@ func ReadObjectList[T constraints.Unsigned, K BinaryCodec](buf *bytes.Buffer, ne
 // Object
 func WriteObjectListLE[T constraints.Unsigned, K BinaryCodec](buf *bytes.Buffer, values []K) error {
 	// Write the list length prefix
+	if err := checkPrefix[T](len(values)); err != nil {
+		return err
+	}
 	if err := binary.Write(buf, binary.LittleEndian, T(len(values))); err != nil {
 		return err
 	}
